@@ -529,6 +529,7 @@ int main(int argc, char** argv)
     printf("BEGIN %s %c\n", run.id.c_str(), run.path);
     struct timeval tv0;
     gettimeofday(&tv0, nullptr);
+    fprintf(stderr, "BEGIN %s\n", run.id.c_str()); // stderr is segmented per run too (assertion messages, sanitizer reports)
     fflush(stdout);
     fflush(stderr);
     pid_t pid = fork();
